@@ -37,7 +37,11 @@ def build_and_run(files: dict, backend: str, yvals: list[list[float]], params: d
             p.write_text(text)
         ng = len(yvals)
         yrows = ", ".join("{" + ", ".join(_c(v) for v in yv) + "}" for yv in yvals)
-        assign = "\n".join(f"    d.{f} = {_c(params.get(f, _default(dflt)))};" for f, dflt in fields)
+        plist = params if isinstance(params, list) else [params] * ng
+        if len(plist) != ng:
+            raise HarnessError("one parameter set per abundance vector expected")
+        prow = ", ".join("{" + (", ".join(_c(pp.get(f, _default(dflt))) for f, dflt in fields) or "0") + "}" for pp in plist)
+        assign = "\n".join(f"    d.{f} = PRM[g][{i}];" for i, (f, dflt) in enumerate(fields))
         common = f"""
 #include <stdio.h>
 #include <math.h>
@@ -45,6 +49,7 @@ def build_and_run(files: dict, backend: str, yvals: list[list[float]], params: d
 #include "naunet_macros.h"
 #include "naunet_ode.h"
 static const double Y[{ng}][{neq}] = {{ {yrows} }};
+static const double PRM[{ng}][{max(1, len(fields))}] = {{ {prow} }};
 static void put(FILE *o, const double *p, size_t n) {{ fwrite(p, sizeof(double), n, o); }}
 """
         if backend in ("dense", "sparse"):
@@ -62,8 +67,8 @@ int main() {{
     FILE *o = fopen("out.bin", "wb");
     SUNContext ctx; SUNContext_Create(NULL, &ctx);
     NaunetData d;
-{assign}
     for (int g = 0; g < {ng}; g++) {{
+    {assign}
         realtype *y = (realtype *)malloc(sizeof(realtype) * NEQUATIONS);     /* exactly sized heap buffers */
         for (int i = 0; i < NEQUATIONS; i++) y[i] = Y[g][i];
         realtype *k = (realtype *)malloc(sizeof(realtype) * NREACTIONS);
@@ -91,8 +96,8 @@ int main() {{
 int main() {{
     FILE *o = fopen("out.bin", "wb");
     NaunetData d;
-{assign}
     for (int g = 0; g < {ng}; g++) {{
+    {assign}
         vector_type x(NEQUATIONS), dx(NEQUATIONS), dfdt(NEQUATIONS);
         for (int i = 0; i < NEQUATIONS; i++) {{ x[i] = Y[g][i]; dx[i] = 0.0; }}
         double *y = (double *)malloc(sizeof(double) * NEQUATIONS);
